@@ -87,6 +87,7 @@ type Txn struct {
 	columns []columnCache    // The column mapping
 	logger  commit.Logger    // The optional commit logger
 	reader  *commit.Reader   // The commit reader to re-use
+	inserts []uint32         // The offsets reserved by pending inserts
 }
 
 // Index returns the current index
@@ -104,6 +105,7 @@ func (txn *Txn) reset() {
 	txn.reader.Rewind()
 	txn.columns = txn.columns[:0]
 	txn.updates = txn.updates[:0]
+	txn.inserts = txn.inserts[:0]
 }
 
 // bufferFor loads or creates a buffer for a given column.
@@ -366,11 +368,13 @@ func (txn *Txn) insert(fn func(Row) error, expireAt int64) (uint32, error) {
 
 	// At a new index, add the insertion marker
 	idx := txn.owner.next()
+	txn.inserts = append(txn.inserts, idx)
 	txn.bufferFor(rowColumn).PutOperation(commit.Insert, idx)
 
 	// If there was an error during insertion, free the index so it can be re-used
 	if err := txn.QueryAt(idx, fn); err != nil {
 		txn.owner.free(idx)
+		txn.inserts = txn.inserts[:len(txn.inserts)-1]
 		return idx, err
 	}
 
@@ -499,6 +503,9 @@ func (txn *Txn) DeleteKey(key string) error {
 // a transaction in order to perform partial rollbacks.
 func (txn *Txn) rollback() {
 	txn.owner.lock.Lock()
+	for _, idx := range txn.inserts {
+		txn.owner.fill.Remove(idx) // release the offsets reserved by this transaction
+	}
 	atomic.StoreUint64(&txn.owner.count, uint64(txn.owner.fill.Count()))
 	txn.owner.lock.Unlock()
 
